@@ -72,6 +72,22 @@ CLAIMED = {
         "through results, boundary cases restricted to inputs on which rfft is exact; two known findings replayed each run.",
         "DESIGN.md section 5, C17",
     ),
+    "C12": (
+        "Coq/MathComp proofs (power laws by induction, matrix powers in 'M_s, isometry from algebraic unitarity via "
+        "convolution-at-zero resp. trace) over a hand-written executable model; equality tie for integer powers and "
+        "in-Coq relation checks on the implementation's exact outputs for unitary vectors and fractional powers",
+        "Theorems for every commutative ring, dimension, vector: HRR/VTB/TVTB integer power = left-nested n-fold binding "
+        "(n>=1), identity for 0, same power of the inverse for n<0; HRR and TVTB exponents of equal sign add; a vector that "
+        "is unitary in the algebra's sense (HRR: v*~v=e0; VTB: sV^TV=I; TVTB: sVV^T=I / sV^TV=I) preserves all dot products "
+        "on the side(s) the algebra supports and its inverse undoes the binding. PARTIAL: that make_unitary / UnitaryVectors "
+        "output such vectors and are idempotent, and the HRR fractional-exponent addition law, are not theorems (HRR needs a "
+        "Fourier layer over R[i]; VTB/TVTB row-orthogonalisation uses np.linalg.solve): they are relation-checked inside Coq "
+        "on every generated output (unitarity, fixed point, isometry on integer partners, unbinding). Tie: powers -6..6 for "
+        "d<=25 (thorough 64/49) via algebra API and SemanticPointer.__pow__.",
+        "Trusted: Coq kernel + vm_compute; models Model/Power.v etc.; NumPy FFT/solve observed through results; SciPy absent "
+        "(fractional VTB/TVTB powers raise ImportError, modelled as such); tolerances 1e-8 on relation checks.",
+        "DESIGN.md section 5, C12",
+    ),
 }
 
 NOT_YET = "not yet built in this revision of /verif (design in DESIGN.md section 5); no check is claimed"
